@@ -327,6 +327,10 @@ def merge_values(c, a, b):
         r = a.pvc_merge(c, b)
         if r is not NotImplemented:
             return r
+    if hasattr(b, "pvc_merge"):
+        r = b.pvc_merge(z3.Not(c), a)
+        if r is not NotImplemented:
+            return r
     raise Unsupported(f"cannot merge values {a!r} / {b!r}")
 
 
